@@ -1400,12 +1400,11 @@ func (t *Topic) subscriptionReply(asChan bool, msg *ClientComMessage) error {
 		return err
 	}
 
-	hasJoined := true
-	if modeChanged != nil {
-		if acs, err := types.ParseAcs([]byte(modeChanged.Mode)); err == nil {
-			hasJoined = acs.IsJoiner()
-		}
-	}
+	// Attach the session only if the user's effective mode includes 'J'. Do not infer it from
+	// modeChanged: it is nil when the request changed nothing, e.g. a banned or self-banned
+	// user repeating {sub} with the same mode would otherwise be attached.
+	pud := t.perUser[asUid]
+	hasJoined := (pud.modeGiven & pud.modeWant).IsJoiner()
 
 	if hasJoined {
 		// Subscription successfully created. Link topic to session.
